@@ -1,6 +1,7 @@
 import YardlProofs.WirePrefix
 import YardlProofs.StreamsR
 import YardlProofs.PyStreamR
+import YardlProofs.PyStreamSeq
 
 /-!
 # C16 — A truncated stream is reported, never mistaken for a complete one
@@ -101,6 +102,19 @@ theorem py_reader_varint_cut (s : PIS) (hc : 0 < s.cap) (hinv : s.Inv) (n : Nat)
 
 theorem py_reader_bytes_cut (s : PIS) (n : Nat) (hp : s.pending.length < n) : (s.readBytes n).isError = true :=
   PIS.readBytes_trunc s n hp
+
+/-- **A truncated stream is never read successfully by the Python input stream** — over whole read sequences: whatever
+    strict prefix of the written data the stream holds (cut between two items or inside one, varints included), for every
+    buffer size and every split of that prefix between buffer and underlying stream, the reader that issues the matching
+    reads ends in an error (`EOFError`, or the `BufferError` of `_fill_buffer`), never in values. -/
+theorem py_reader_truncated_sequence_is_an_error (items : List RItem) (s : PIS) (hc : 0 < s.cap) (hinv : s.Inv)
+    (hf : ∀ i ∈ items, i.fits s.cap) (more : Bytes) (hm : more ≠ []) (hp : s.pending ++ more = encItems items) :
+    (s.readItems items).isError = true :=
+  PIS.readItems_cut items s hc hinv hf more hm hp
+
+/-- non-vacuity: a varint, a 4-byte number and a run, cut inside the run, in a 4-byte buffer -/
+example : (PIS.init 4 [0xac, 0x02, 1, 0, 0, 0, 9, 9]).pending ++ [9] = encItems [.var 300, .fixed [1, 0, 0, 0], .bytes [9, 9, 9]] := by
+  simp [PIS.init, PIS.pending, encItems, RItem.enc, encVar]
 
 /-- the resize quirk of `_fill_buffer` never fires while the stream still holds what is asked for -/
 theorem py_buffer_error_only_when_truncated (s : PIS) (n : Nat) (hc : n ≤ s.cap) (hinv : s.Inv) (hn : n ≤ s.pending.length) :
